@@ -297,6 +297,18 @@ type rbFn struct {
 	conds  map[ssa.Value]rbCond
 	contr  map[string]bool // variables that are Read counts
 	ctx    string
+	retLen bool // the method returns one slice: its length is part of the summary
+}
+
+const rbRetLen = "$retlen"
+
+func rbReturnsSlice(fn *ssa.Function) bool {
+	res := fn.Signature.Results()
+	if res.Len() != 1 {
+		return false
+	}
+	_, ok := res.At(0).Type().Underlying().(*types.Slice)
+	return ok
 }
 
 type rbCond struct {
@@ -344,6 +356,10 @@ func (r *rbRun) method(fn *ssa.Function, in *rbOct) *rbOct {
 	f.exvars = append(append([]string{}, fv...), mapStrings(fv, ghost)...)
 	// integer parameters are immutable: the exit relation may mention them
 	f.exvars = append(f.exvars, rbIntParams(fn)...)
+	if rbReturnsSlice(fn) {
+		f.retLen = true
+		f.exvars = append(f.exvars, rbRetLen)
+	}
 	f.exit = &rbOct{vars: f.exvars, bot: true}
 	st := in.poly()
 	for _, v := range fv {
@@ -718,6 +734,17 @@ func (f *rbFn) walk(b, prev *ssa.BasicBlock, st *rbPoly, depth int) {
 			if !st.feasible() {
 				return
 			}
+			if f.retLen {
+				// the length of the returned slice, as a function of the cursors
+				st.eliminate(rbRetLen)
+				if len(in.Results) == 1 {
+					if l, ok := f.lens[in.Results[0]]; ok {
+						st.eq(linVar(rbRetLen).plus(l, -1))
+					} else {
+						st.ge(linVar(rbRetLen))
+					}
+				}
+			}
 			f.exit.joinWiden(octOf(st, f.exvars))
 			return
 		case *ssa.Panic:
@@ -801,6 +828,14 @@ func (f *rbFn) slice(st *rbPoly, in *ssa.Slice) {
 				hi, okb = f.lin(in.High)
 			}
 			if okb {
+				src := f.srcOf(in.Pos())
+				if in.Low != nil {
+					f.need(st, "RB-slice", f.key("lo>=0:"+src), lo, "0 <= low", in.Pos())
+					f.need(st, "RB-slice", f.key("lo<=hi:"+src), hi.plus(lo, -1), "low <= high", in.Pos())
+				}
+				if in.High != nil {
+					f.need(st, "RB-slice", f.key("hi<=len:"+src), base.plus(hi, -1), "high <= length of the sliced value", in.Pos())
+				}
 				f.lens[in] = hi.plus(lo, -1)
 			}
 		}
@@ -883,6 +918,20 @@ func (f *rbFn) call(st *rbPoly, in *ssa.Call) {
 					st.ge(l.plus(linVar(res), -1))
 				}
 			}
+			// copy returns the smaller of the two lengths: when one is known
+			// to be no larger than the other, that one exactly
+			if len(cc.Args) == 2 {
+				l0, ok0 := f.lens[cc.Args[0]]
+				l1, ok1 := f.lens[cc.Args[1]]
+				if ok0 && ok1 {
+					switch {
+					case st.entails(l0.plus(l1, -1)): // len(dst) >= len(src)
+						st.eq(linVar(res).plus(l1, -1))
+					case st.entails(l1.plus(l0, -1)):
+						st.eq(linVar(res).plus(l0, -1))
+					}
+				}
+			}
 		}
 		return
 	}
@@ -946,8 +995,14 @@ func (f *rbFn) call(st *rbPoly, in *ssa.Call) {
 						return parg(pn)
 					}
 				}
+				if v == rbRetLen {
+					return fmt.Sprintf("$retlen%d", r.callNo)
+				}
 				return v
 			})})
+		}
+		if rbReturnsSlice(cal) {
+			f.lens[in] = linVar(fmt.Sprintf("$retlen%d", r.callNo))
 		}
 		st.tidy()
 		return
